@@ -393,7 +393,7 @@ def build(tier, seed):
                         rp.Cov(inner, n_cov), n_ids, seed, with_c))
     # composed: all sequences of k parts over the alphabet
     kinds = ['G', 'Gnc', 'LN', 'LNnc', 'TG', 'P', 'H', 'Cov(G)', 'Cov(LNnc)',
-             'Cov(P)']
+             'Cov(P)', 'Cov(TG)']
     n_parts = (2,) if tier == 'quick' else (2, 3)
     for k in n_parts:
         dims_choices = [(1,) * k] if k == 3 else [(1, 1), (2, 1), (1, 2)]
